@@ -94,23 +94,24 @@ type interpreter struct {
 	goroutines         int32                  // atomically updated
 
 	// symbolic execution state
-	ctx       *sym.Ctx
-	math      bool // integer mode: SMT Int with overflow obligations (else bit-vectors)
-	ex        *exec
-	params    map[string]int
-	initDone  map[*ssa.Package]bool
-	initAllow func(pkg *ssa.Package) bool
-	inInit    bool
-	pdom      map[*ssa.Function]*pdomInfo
-	pure      map[*ssa.Function]int8
-	sched     *scheduler
-	models    map[string]*ssa.Function // replacement table: callee name -> model function
-	gstate    *gstate                  // current goroutine
-	regions   map[*ssa.If]*regionInfo
-	onces     map[*value]bool
-	noIfConv  bool
-	curFrame  *frame
-	fs        *fsState
+	ctx        *sym.Ctx
+	math       bool // integer mode: SMT Int with overflow obligations (else bit-vectors)
+	ex         *exec
+	params     map[string]int
+	initDone   map[*ssa.Package]bool
+	initAllow  func(pkg *ssa.Package) bool
+	inInit     bool
+	pdom       map[*ssa.Function]*pdomInfo
+	pure       map[*ssa.Function]int8
+	sched      *scheduler
+	models     map[string]*ssa.Function // replacement table: callee name -> model function
+	gstate     *gstate                  // current goroutine
+	regions    map[*ssa.If]*regionInfo
+	onces      map[*value]bool
+	noIfConv   bool
+	floatSplit bool // convert symbolic ints to floats by case split instead of an opaque float
+	curFrame   *frame
+	fs         *fsState
 }
 
 // stack renders the interpreted call stack at the point of the last call entry.
